@@ -50,6 +50,13 @@ func (c *valueAwarePostProcessors) PostProcessProperties(properties []*component
 		if prop.Tag != definition.ValueTag {
 			continue
 		}
+		if configValue, ok := configuredScalar(prop); ok {
+			err := prop.Unmarshall(configValue)
+			if err != nil {
+				return nil, errors.WithMessagef(err, "populate on '%s' failed", prop)
+			}
+			continue
+		}
 		if prop.TagVal == "" {
 			if prop.IsRequired() {
 				return nil, errors.Errorf("value on '%s' is required", prop)
@@ -67,4 +74,23 @@ func (c *valueAwarePostProcessors) PostProcessProperties(properties []*component
 		}
 	}
 	return nil, nil
+}
+
+// configuredScalar reports the configuration value itself when the whole tag value is exactly one
+// config quote that resolved to a scalar. Binding that value directly, like the prefix tag does,
+// avoids re-parsing its text form, which alters strings that look like numbers, booleans, quoted
+// or bracketed text and loses precision of large integers.
+func configuredScalar(prop *component_definition.Property) (any, bool) {
+	if len(prop.Configurations) != 1 {
+		return nil, false
+	}
+	for _, configValue := range prop.Configurations {
+		switch configValue.(type) {
+		case string, bool, int, int8, int16, int32, int64, uint, uint8, uint16, uint32, uint64, float32, float64:
+			if text, err := strconv2.FormatAny(configValue); err == nil && text == prop.TagVal {
+				return configValue, true
+			}
+		}
+	}
+	return nil, false
 }
